@@ -35,6 +35,9 @@ def obligations(tier):
         obs.append(Ob(f"C02.drv/schema-qualified-table/item1={i}", "drv", "c_items", {"VF_I1": i, "VF_NAMES": 0, "VF_TSCHEMA": 1}, t, FN_DRV,
                       f"the table is written shop.t: item #{i} + any second item - referenced schema / table / column exactly as written (an unqualified referenced table has schema None), "
                       "the table's own schema reported once, on the table"))
+    obs.append(Ob("C02.pipe/check-expressions", "pipe", "c_check_expr", {}, t, ["whole pipeline (harness/pipe.py): pre-processor, lexer (check flag, < > handling), LALR driver, p_check_st / p_alter_check, output"],
+                  "7 catalogued CHECK expressions (comparisons < > <> >= <=, a function call or a schema-qualified function before the comparison, and) x 5 declaration forms "
+                  "(inline, table-level named / unnamed, ALTER ADD CHECK, ALTER ADD CONSTRAINT c CHECK) - both symbolic: reported exactly once, in the form's place, nowhere else"))
     obs += lex_obs("C02", "c_kw", ["col_later", "col_after_sized"], tier, "lex")
     obs += lex_obs("C02", "c_name", ["pk_list_first", "pk_list_later", "uniq_list_first", "fk_list_first", "ref_list_first"], tier, "lexname")
     return obs
